@@ -1,4 +1,4 @@
-import AmVerif.Proofs.DocCodecRebuild
+import AmVerif.Proofs.DocCodecExRecon4
 import AmVerif.Proofs.SaveLoad
 /-
   C11 — "Save/load round-trips a document exactly: Loading the output of save (compressed or not)
@@ -22,18 +22,21 @@ import AmVerif.Proofs.SaveLoad
   * `C11_doc_image_wf` / `C11_doc_save_decodes` — FULL: the image `save` builds from an admissible
     history (rows = `Store.buildStore`) is well-formed, given the type invariants of the history's
     values and the size bounds of the format; hence its chunk decodes to it.
-  * `C11_doc_reconstruct_partial` — PARTIAL: the full statement `Reconstructs applied`
-    (`changesOf (imageOf applied) = ok applied`) is decided on the concrete history only
-    (`C11_doc_reconstruct_example`, SHA-256 included); proved in general are the two store facts the
-    reconstruction rests on (a row lists an op as successor iff the op names it as predecessor; the
-    rows are the non-delete ops, once each) and what an accepted reconstruction has verified.
-    MISSING: that `ChangeCollector` (register runs, `flush_deletes`, the builders' binary search and
-    the two encoder strategies) puts these facts together into the original changes.
-    `C11_doc_reconstruct_fails_delete_without_pred` — the statement is FALSE without the hypothesis
-    that every delete op names a predecessor (negated form, concrete witness, a finding).
-  * `C11_load_save_doc_partial` — `C11_load_save` of `Props/C11.lean` for the instantiated codec, with
-    `Reconstructs` and the change-chunk round trip of held changes (C18, not proved as a whole) as the
-    remaining hypotheses.
+  * `C11_doc_reconstruct` — FULL: `Reconstructs applied`
+    (`changesOf (imageOf applied) = ok applied`) for every history that passes the decidable check
+    `ReconChecks` (admissible ops; predecessors = stored ops of the op's register with smaller ids in
+    ascending order, deletes name one; consecutive ids per change; dependencies earlier; hash = SHA-256
+    of the encoding; per-actor sequence numbers and counter ranges in order).  The proof follows
+    `ChangeCollector` step by step: register runs and `flush_deletes` (`Proofs/DocCodecEmit*.lean`), the
+    store order (`DocCodecCanon`, `DocCodecStoreEmit`), `builders_index`'s binary search
+    (`DocCodecSearch`), both encoder strategies (`DocCodecPlace*`), the per-change loop with
+    `ActorMapper` and `Change::decode` (`DocCodecIdeal`, `DocCodecFinish`, `DocCodecRecon`).
+    `C11_doc_reconstruct_partial` (the store facts and what an accepted reconstruction has verified)
+    is kept; `C11_doc_reconstruct_fails_delete_without_pred` — the statement is FALSE without the
+    hypothesis that every delete op names a predecessor (negated form, concrete witness, a finding).
+  * `C11_load_save_doc_partial` — `C11_load_save` of `Props/C11.lean` for the instantiated codec: the
+    hypothesis `Reconstructs` is gone (replaced by `ReconChecks`); the change-chunk round trip of held
+    changes (C18, not proved as a whole) is the remaining hypothesis — hence still `_partial`.
 -/
 namespace AmVerif.Props.C11Doc
 open AmVerif AmVerif.Crdt AmVerif.DocCodec
@@ -90,11 +93,26 @@ example : admissibleB (Ex.history.flatMap (·.c.ops)) = true ∧ historyOkB Ex.h
     (deletes re-created), times, messages, extra bytes -/
 def Reconstructs (applied : List DChange) : Prop := changesOf (imageOf applied) = .ok applied
 
-set_option maxRecDepth 100000 in
-/-- `Reconstructs` decided on the example history (the four SHA-256 change hashes recomputed) -/
-theorem C11_doc_reconstruct_example : Reconstructs Ex.history := by
-  unfold Reconstructs
-  decide +kernel
+/-- **Reconstruction.**  "Loading the output of save … gives a document observationally equal to the
+    original" — the history: for applied changes in graph order that pass `ReconChecks` (decidable;
+    its clauses are listed at its definition in `Proofs/DocCodecChecks.lean`), the changes
+    `ChangeCollector` rebuilds from the op rows and change rows of the document chunk — register runs,
+    predecessors derived from successor lists, deletes re-created by `flush_deletes`, `builders_index`,
+    the vector and the progressive encoder, `ActorMapper`, the SHA-256 of every re-encoded change, the
+    heads comparison — are the applied changes: same hashes, actors, sequence numbers, start ops,
+    dependencies, ops with their predecessor lists, times, messages, extra bytes.  No error, no panic. -/
+theorem C11_doc_reconstruct (applied : List DChange) (h : ReconChecks applied) : Reconstructs applied :=
+  reconstructs_of_checks h
+
+/-- non-vacuity: the example history (3 actors, conflict, counter + increment, list with a deleted
+    element — a delete op re-created from a successor entry —, text, nested map) passes the check
+    (`Ex.history_checks`, decided by the kernel in `Proofs/DocCodecExRecon1..4.lean`, the four SHA-256
+    change hashes recomputed); so does the 19-op change that goes through the progressive encoder -/
+example : ReconChecks Ex.history ∧ ReconChecks Ex.big := ⟨Ex.history_checks, Ex.big_checks⟩
+
+/-- `Reconstructs` on the example history, now an instance of the theorem -/
+theorem C11_doc_reconstruct_example : Reconstructs Ex.history :=
+  C11_doc_reconstruct Ex.history Ex.history_checks
 
 set_option maxRecDepth 100000 in
 /-- **`Reconstructs` is FALSE for a history that holds a delete op without predecessors** (C11
@@ -104,13 +122,37 @@ set_option maxRecDepth 100000 in
     history `Ex.delNoPred` is admissible and well-formed, `apply_changes` accepts it, `save` writes
     a chunk — and the reconstruction of that chunk fails with `MissingOps`: the document cannot be
     loaded again.  (So the general statement needs the extra hypothesis that every delete names a
-    predecessor, which holds for every change the library itself makes.) -/
+    predecessor — the clause of `ReconChecks` this history fails (last conjunct) —, which holds for
+    every change the library itself makes.) -/
 theorem C11_doc_reconstruct_fails_delete_without_pred :
     admissibleB (Ex.delNoPred.flatMap (·.c.ops)) = true ∧ historyOkB Ex.delNoPred = true ∧
     wfB 1000 (imageOf Ex.delNoPred) = true ∧ ¬ Reconstructs Ex.delNoPred ∧
-    changesOf (imageOf Ex.delNoPred) = .err .changes := by
+    changesOf (imageOf Ex.delNoPred) = .err .changes ∧
+    ¬ (∀ o ∈ Ex.delNoPred.flatMap (·.c.ops), o.isDel = true → o.pred ≠ []) := by
   have h : changesOf (imageOf Ex.delNoPred) = .err .changes := by decide +kernel
-  refine ⟨by decide +kernel, by decide +kernel, by decide +kernel, ?_, h⟩
+  refine ⟨by decide +kernel, by decide +kernel, by decide +kernel, ?_, h, by decide +kernel⟩
+  unfold Reconstructs
+  rw [h]
+  intro hh
+  cases hh
+
+set_option maxRecDepth 100000 in
+/-- **`Reconstructs` is FALSE for a history that holds a change without ops whose `start_op` is beyond
+    one past the `max_op` of its dependencies** (C11 violated on the unchanged tree; direct oracle
+    `! C11 sig=load-failed … change without ops whose start_op is beyond max_op + 1`; found by the
+    proof of `C11_doc_reconstruct`: the clause `GapD.empty` is needed).  The document chunk does not
+    store `start_op`: `load` estimates the first counter of a change from its dependencies and takes
+    the real one from the change's first op.  For `Ex.emptyGap` the collector reserves the counters
+    2 … 9 for the empty change, finds no op at all and fails with `MissingOps`: `apply_changes`
+    accepts the change, `save` writes a chunk — and the document cannot be loaded again.  (All other
+    clauses of `ReconChecks` hold, hashes included; no library call makes such a change.) -/
+theorem C11_doc_reconstruct_fails_empty_change_with_gap :
+    admissibleB (Ex.emptyGap.flatMap (·.c.ops)) = true ∧ historyOkB Ex.emptyGap = true ∧
+    wfB 1000 (imageOf Ex.emptyGap) = true ∧ ReconD Ex.emptyGap ∧
+    OpsD (actorTable Ex.emptyGap) (Ex.emptyGap.flatMap (·.c.ops)) ∧
+    ¬ Reconstructs Ex.emptyGap ∧ changesOf (imageOf Ex.emptyGap) = .err .changes := by
+  have h : changesOf (imageOf Ex.emptyGap) = .err .changes := by decide +kernel
+  refine ⟨by decide +kernel, by decide +kernel, by decide +kernel, by decide +kernel, by decide +kernel, ?_, h⟩
   unfold Reconstructs
   rw [h]
   intro hh
@@ -123,7 +165,8 @@ theorem C11_doc_reconstruct_fails_delete_without_pred :
     each once — so every op id of a change is found as a row or (deletes) as a successor id;
     (3) an accepted reconstruction has one rebuilt change per change row and the stored heads are the
     (sorted) heads of the rebuilt changes, their hashes being SHA-256 of the re-encoded change.
-    MISSING for `Reconstructs applied` in general: the collector's plumbing (see the header). -/
+    (Superseded by `C11_doc_reconstruct`, which proves `Reconstructs applied` itself; kept because it
+    needs `Admissible` only.) -/
 theorem C11_doc_reconstruct_partial (applied : List DChange)
     (hadm : Admissible (applied.flatMap (·.c.ops))) :
     (∀ r ∈ buildStore (fun _ => 0) (applied.flatMap (·.c.ops)), ∀ o ∈ applied.flatMap (·.c.ops),
@@ -169,19 +212,20 @@ theorem map_c_lift (l : List Change) : (l.map lift).map (·.c) = l := by
     with it equal heads, change order, held changes, op set, state at every heads — `C11_load_save`)
     for the modelled document codec, WITHOUT the hypothesis `BodyCodec.OkFor` about the document
     chunk's parser: it is replaced by the hypotheses of `C11_doc_save_decodes` on the applied changes
-    and `Reconstructs` (PARTIAL, see `C11_doc_reconstruct_partial`).  For documents that hold changes
-    back, the change-chunk round trip of the held changes (C18, proved column by column only) remains
-    a hypothesis. -/
+    and the decidable check `ReconChecks` of the reconstruction theorem (`reconstructs_of_checks`).
+    For documents that hold changes back, the change-chunk round trip of the held changes (C18, proved
+    column by column only) remains a hypothesis — the only reason for `_partial`. -/
 theorem C11_load_save_doc_partial (limit : Nat) (d : Doc) (hinv : d.Inv)
     (hadm : admissibleB ((d.applied.map lift).flatMap (·.c.ops)) = true)
     (hh : historyOkB (d.applied.map lift) = true)
     (hs : sizesOkB limit (imageOf (d.applied.map lift)) = true)
     (hlen : (encodeDoc (imageOf (d.applied.map lift))).length < 2 ^ 64)
-    (hrec : Reconstructs (d.applied.map lift))
+    (hchk : ReconChecks (d.applied.map lift))
     (hq : ∀ c ∈ d.queue, d.hasActorSeq c = false)
     (hraw : ∀ c ∈ d.queue, ((docCodec limit).raw c).length < 2 ^ 64 ∧ (docCodec limit).decode ((docCodec limit).raw c) = c) :
     loadDoc (docCodec limit) (saveDoc (docCodec limit) d) = some d := by
   have hdec := C11_doc_save_decodes limit (d.applied.map lift) hadm hh hs
+  have hrec : Reconstructs (d.applied.map lift) := reconstructs_of_checks hchk
   apply loadDoc_saveDoc hinv _ hq
   refine ⟨?_, hlen, ?_, fun c _ => rfl, fun c hc => (hraw c hc).1, fun c hc => (hraw c hc).2⟩
   · show (if (0 : Nat) = 0 then (match decodeDoc limit (encodeDoc (imageOf (d.applied.map lift))) with
@@ -203,3 +247,4 @@ theorem C11_load_save_doc_partial (limit : Nat) (d : Doc) (hinv : d.Inv)
     exact map_c_lift d.applied
 
 end AmVerif.Props.C11Doc
+
